@@ -287,7 +287,33 @@ class Gen:
             if r.random() < 0.6:
                 return {'t': 'rand', 'l': [I(r.randint(0, 9)) for _ in range(k)], 'r': n}
             return {'t': 'white', 'k': r.randint(-3, 5), 'o': k, 'r': n}
+
+        def rout(inf_ok=True):      # routine-backed leaf
+            return {'t': 'rout', 'k': r.randint(-3, 5), 'o': k, 'r': r.choice([1, 2, 3, 5] + ([INF] if inf_ok else []))}
         c = r.random()
+        if c < 0.25:                # Pseed over a Prout: directly, under operators, under Pif, in sequence
+            f = r.choice(['leaf', 'run', 'rbin', 'rbin', 'rif', 'rseq', 'rtuple'])
+            other = lambda: r.choice([I(r.randint(0, 9)), rout(), leaf(True)])
+            if f == 'leaf':
+                body = rout()
+            elif f == 'run':
+                body = {'t': 'run', 'f': r.choice(['neg', 'inc']), 'a': rout()}
+            elif f == 'rbin':
+                a, b2 = rout(), other()
+                if r.random() < 0.4:
+                    a, b2 = b2, a
+                body = {'t': 'rbin', 'f': r.choice(['add', 'sub', 'mul']), 'a': a, 'b': b2}
+            elif f == 'rif':
+                cond = {'t': 'seq', 'l': [I(r.randint(0, 1)) for _ in range(r.randint(2, 4))], 'r': r.choice([1, 2, INF]), 'o': 0}
+                body = {'t': 'rif', 'a': cond, 'b': rout(), 'c': other()}
+            elif f == 'rseq':
+                body = {'t': 'rseq', 'l': [rout(False), leaf()], 'r': r.choice([1, 2])}
+            else:
+                body = {'t': 'rtuple', 'a': rout(), 'b': r.choice([rout(), leaf(True)])}
+            sd = I(r.randint(0, 99)) if r.random() < 0.5 else \
+                {'t': 'seq', 'l': [I(r.randint(0, 99)) for _ in range(r.randint(1, 3))], 'r': 1, 'o': 0}
+            p = {'t': 'seed', 'a': sd, 'p': body, 'tp': [], 'pm': []}
+            return p if r.random() < 0.6 else {'t': 'seq', 'l': [p, I(7), p], 'r': 1, 'o': 0}
         if c < 0.12:
             sd = I(r.randint(0, 99)) if r.random() < 0.5 else \
                 {'t': 'seq', 'l': [I(r.randint(0, 99)) for _ in range(r.randint(1, 3))], 'r': 1, 'o': 0}
